@@ -1,5 +1,6 @@
 import Qats.Prelude
 import Qats.Model.Welch
+import Qats.Model.WelchArea
 /-!
 Line-protocol handlers for the Welch / PSD model (Float execution):
 
@@ -7,6 +8,8 @@ Line-protocol handlers for the Welch / PSD model (Float execution):
   psd.ts <nperseg|-> <noverlap|-> <nfft|-> <0|1> t… | x…        → ok f… | p…      (TimeSeries.psd; 1 = normalize)
   psd.gui <nperseg> <0|1> t… | x…                               → ok f… | p…      (app.funcs.calculate_psd)
   psd.guisig t… | x…                                            → ok t'… | x'…    (get(resample=dt, taperfrac=0.1))
+  psd.area <dt> <nperseg|-> <noverlap|-> <nfft|-> x…            → ok <area> <mwms>  (`welchArea`: Σ P·Δf of the model's
+                                                                  estimate, and the mean over the segments of Σ(w·y)²/Σw²)
 
 Errors: `err value` (scipy argument check), `err guard` (time step varies by more than 1 %).
 -/
@@ -36,6 +39,16 @@ def handle : List String → Option String
     let nf ← optNat? nf
     let xs ← parseFloats? xs
     some (showRes (welch xs dt np nov nf))
+  | "psd.area" :: dt :: np :: nov :: nf :: xs => do
+    let dt ← parseFloatBits? dt
+    let np ← optNat? np
+    let nov ← optNat? nov
+    let nf ← optNat? nf
+    let xs ← parseFloats? xs
+    match welchArea xs dt np nov nf with
+    | .ok (a, b) => some ("ok " ++ showFloatBits a ++ " " ++ showFloatBits b)
+    | .error .value => some "err value"
+    | .error .guard => some "err guard"
   | "psd.ts" :: np :: nov :: nf :: nz :: rest => do
     let np ← optNat? np
     let nov ← optNat? nov
